@@ -236,6 +236,64 @@ fn from_arc_f64(d: &mut Draw) -> Outcome {
     pass(if cls == "opposite" { if with_fb { "opposite-fallback" } else { "opposite-no-fallback" } } else { cls }, true)
 }
 
+/// from_arc(src, -c src): opposite vectors of different lengths whose ratio is not a power of two, so that dst is
+/// antiparallel to src only up to the rounding of the three products. Of 512 ratios near a drawn one the harness keeps
+/// the pair whose *computed* cosine - by either of the two obvious formulas - looks least like -1 (worst-of-k sampling:
+/// the rounding patterns that matter are a few per million, so they are searched for rather than waited for). Whatever
+/// the constructor makes of such a pair, the result must take src/|src| onto dst/|dst| within the allowance the
+/// statement gives nearly antiparallel inputs.
+macro_rules! rounded_opposite {
+    ($fname:ident, $F:ty, $allow:expr, $unit:expr) => {
+        fn $fname(d: &mut Draw) -> Outcome {
+            type F = $F;
+            let src: [F; 3] = if d.chance(1, 4) {
+                [d.int(-9, 9) as F, d.int(1, 9) as F, d.int(-9, 9) as F]
+            } else {
+                [d.f64_slog(0.1, 10.0) as F, d.f64_slog(0.1, 10.0) as F, d.f64_slog(0.1, 10.0) as F]
+            };
+            let c0 = d.f64_log(0.05, 50.0) as F;
+            let dot = |x: &[F; 3], y: &[F; 3]| x[0] * y[0] + x[1] * y[1] + x[2] * y[2];
+            let m2a = dot(&src, &src);
+            let mut best = (-1.0 as F, [0.0 as F; 3], 0.0 as F);
+            for k in 0..512 {
+                let c = c0 * (1.0 + k as F / 521.0);
+                let dst = [-(c * src[0]), -(c * src[1]), -(c * src[2])];
+                let m2b = dot(&dst, &dst);
+                let dt = dot(&src, &dst);
+                let f1 = dt / (m2a * m2b).sqrt();
+                let f2 = dt / (m2a.sqrt() * m2b.sqrt());
+                let dev = (f1 + 1.0).abs().max((f2 + 1.0).abs());
+                if dev > best.0 {
+                    best = (dev, dst, c);
+                }
+            }
+            let (dev, dst, c) = best;
+            let with_fb = d.bool();
+            let an64 = fnormalize3(&[src[0] as f64, src[1] as f64, src[2] as f64]);
+            let bn64 = fnormalize3(&[dst[0] as f64, dst[1] as f64, dst[2] as f64]);
+            let fb64 = perp_unit(&an64, d);
+            let fb = Vector3::new(fb64[0] as F, fb64[1] as F, fb64[2] as F);
+            d.note("src", &src);
+            d.note("dst = -c src (rounded), c", &(dst, c));
+            d.note("computed cosine + 1, in ulps", &(dev / (F::EPSILON / 2.0)));
+            d.note("fallback", &if with_fb { Some(fb64) } else { None });
+            let q = Quaternion::<F>::from_arc(Vector3::from(src), Vector3::from(dst), if with_fb { Some(fb) } else { None });
+            d.note("quaternion", &q);
+            let n = (q.s as f64 * q.s as f64 + q.v.x as f64 * q.v.x as f64 + q.v.y as f64 * q.v.y as f64 + q.v.z as f64 * q.v.z as f64).sqrt();
+            ensure!((n - 1.0).abs() <= $unit, "not-unit", "from_arc of (nearly) opposite vectors: |q| = {}", n);
+            let img = q * Vector3::new(an64[0] as F, an64[1] as F, an64[2] as F);
+            let err = dist3(&[img.x as f64, img.y as f64, img.z as f64], &bn64);
+            ensure!(err <= $allow, "opposite-image", "from_arc(src, -c src): r(src/|src|) = {:?}, expected dst/|dst| = {:?} (off by {:e}; the vectors are opposite up to rounding)", img, bn64, err);
+            ensure!(q.s as f64 >= -1e-6, "not-smaller-angle", "scalar part {} < 0", q.s);
+            // (representable numbers just inside -1 are epsilon/2 apart)
+            let ulps = dev / (F::EPSILON / 2.0);
+            pass(if ulps > 4.0 { "computed-cosine-more-than-4-ulps-from--1" } else if ulps > 2.0 { "computed-cosine-3-or-4-ulps-from--1" } else { "computed-cosine-within-2-ulps-of--1" }, ulps > 2.0)
+        }
+    };
+}
+rounded_opposite!(rounded_opposite_f64, f64, 1.01e-4, 8e-15);
+rounded_opposite!(rounded_opposite_f32, f32, 1e-2, 4e-6);
+
 // ---- exact tier ----------------------------------------------------------------------------------
 
 fn reflect(a: &[Q; 3], m: &[Q; 3]) -> [Q; 3] {
@@ -344,6 +402,9 @@ pub fn property() -> Property {
         &[("clockwise", 150), ("counter-clockwise", 100), ("near-parallel", 40), ("near-antiparallel", 40), ("equal", 40), ("opposite", 40)], "every generated pair; clockwise pairs required");
     add!("from_arc-f64", "f64", from_arc_f64, 12000, 1_000_000, 48,
         &[("generic", 100), ("dot-is-one", 30), ("generic-far-lengths", 30), ("near-parallel", 100), ("near-antiparallel", 100), ("equal", 40), ("opposite-fallback", 15), ("opposite-no-fallback", 15)], "every generated pair; fallback given / not given both required");
+    const RO: &[(&str, u32)] = &[("computed-cosine-3-or-4-ulps-from--1", 100), ("computed-cosine-more-than-4-ulps-from--1", 2)];
+    add!("from_arc_rounded_opposite-f64", "f64", rounded_opposite_f64, 12000, 1_000_000, 24, RO, "every generated pair (dst = -c src rounded, the least opposite-looking of 512 ratios)");
+    add!("from_arc_rounded_opposite-f32", "f32", rounded_opposite_f32, 12000, 1_000_000, 24, RO, "every generated pair (dst = -c src rounded, the least opposite-looking of 512 ratios)");
     add!("between_vectors_from_arc-Q", "Q", exact3, 8000, 500_000, 48, &[("generic", 200), ("equal", 50), ("opposite", 100)], "a has three distinct non-zero components");
     Property {
         id: "C15",
